@@ -1,29 +1,33 @@
 /-
-  CRModel.Frame — the read-only operations of commonroad-io as state transformers `St → St × Res Out` over
-  (observable state) + (hidden caches they touch).
+  CRModel.Frame — the read-only operations of commonroad-io as state transformers `step : Op → St → St × Res Out` over
+  (observable state) + (hidden caches they touch), for a selectable variant of the code (`Sem`: the tree as it is, the
+  pinned tree before the three `fix:` commits, two seeded changes).
 
-  Modelled code (commonroad-io, repaired tree; line numbers of that tree):
+  An operation's model reads and writes through the same records the observation `St.obs` reads: the occupancy computation
+  is a transformer of the trajectory's state list whose result is stored back, goal checks run on an object store whose
+  slot 0 is written back, the writers thread the goal-lanelet tables, the registry and merge queries write the lanelet's
+  registries back.  That these come back unchanged is proved for `Sem.repaired` (CRProofs/Frame.lean) and refuted for the
+  other variants (CRProps/C18.lean).
+
+  Modelled code (commonroad-io; line numbers of the repaired tree at the time of writing):
     prediction/prediction.py:122-140   Prediction.occupancy_at_time_step           → `Pred.occAt`, `findOcc`
     prediction/prediction.py:291-299   TrajectoryPrediction.occupancy_set (functools.cached_property) → `Pred.occSet`
-    prediction/prediction.py:390-410   TrajectoryPrediction._create_occupancy_set   → `createOccSet`  (`createOccSetOld` = before the repair)
-    scenario/obstacle.py:419-435       StaticObstacle.occupancy_at_time / state_at_time
-    scenario/obstacle.py:612-642       DynamicObstacle.occupancy_at_time / state_at_time
-    scenario/obstacle.py:797-820       PhantomObstacle.occupancy_at_time / state_at_time
-    scenario/obstacle.py:954-961       EnvironmentObstacle.occupancy_at_time
+    prediction/prediction.py:390-410   TrajectoryPrediction._create_occupancy_set   → `createOccLoop` / `createOccSet`, `createOccs`
+    scenario/obstacle.py:419-435, 612-642, 797-820, 954-961   occupancy_at_time / state_at_time of the four obstacle classes
     scenario/trajectory.py:133-143     Trajectory.state_at_time_step
-    scenario/scenario.py:1046-1071     Scenario.occupancies_at_time_step
-    scenario/scenario.py:1183-1201     Scenario.obstacle_states_at_time_step
-    scenario/lanelet.py:1296-1319      LaneletNetwork.__getstate__/__setstate__/__deepcopy__ (index dropped and rebuilt)
-    scenario/lanelet.py:1569-1599      LaneletNetwork._create_strtree
-    scenario/lanelet.py:1975-1997      LaneletNetwork.find_lanelet_by_position
-    scenario/traffic_light.py:165-178  TrafficLightCycle.cycle_init_timesteps (lazy `_cycle_init_timesteps`) / get_state_at_time_step
-    common/writer/file_writer_xml.py:981-1011         goal lanelets of a planning problem (`in`, then index)   → `goalLanelets`
-    common/writer/file_writer_xml.py:845-897          lanelet references are written inside the goal state's `position` element
-    common/writer/file_writer_protobuf.py:814-836     the same lookup after the repair; `goalLaneletsOld` = before (index only)
-    common/writer/file_writer_xml.py:938-962, file_writer_protobuf.py:635-656   states are written from `used_attributes`
+    scenario/scenario.py:1046-1071, 1131-1181, 1183-1201   occupancies_at_time_step, obstacles_by_position_intervals, obstacle_states_at_time_step
+    scenario/lanelet.py                 __getstate__/__setstate__/__deepcopy__, _create_strtree, find_lanelet_by_position, find_lanelet_by_shape,
+                                        get_obstacles, map_obstacles_to_lanelets, dynamic_obstacle_by_time_step, _merge_*_obstacles_on_lanelet,
+                                        merge_lanelets, all_lanelets_by_merging_{successors,predecessors}_from_lanelet
+    scenario/traffic_light.py:165-185  cycle_init_timesteps (lazy `_cycle_init_timesteps`) / get_state_at_time_step (C11's / C17's model function)
+    planning/goal.py:89-123, 196-228   GoalRegion.is_reached, _harmonize_state_types;  planning/planning_problem.py:86-96 goal_reached
+    visualization/mp_renderer.py:454-720, visualization/util.py:129-155, visualization/traffic_sign.py:509-515   which occupancy and
+                                        traffic-light queries draw_scenario + render issue
+    common/writer/file_writer_xml.py, file_writer_protobuf.py   goal lanelets of a planning problem (`in`, then index); states are
+                                        written from `used_attributes`; what else is read is in `Extra`
 
-  Values are opaque integer tokens (the harness interns every attribute value, shape and point); geometry is a parameter:
-  a lanelet carries the list of point tokens its polygon contains.  Core Lean only.
+  Values are opaque integer tokens (the harness interns every attribute value, shape and point); geometry and goal decisions
+  are parameters.  Core Lean only.
 -/
 import CRModel.Basic
 import CRModel.TrafficLight
